@@ -27,9 +27,7 @@ ASSUMPTIONS = ["Python's integers and pow(x, e, p) are the reference for Z/pZ",
                "fp_rdc_quick only for primes the library itself describes in sparse form (fp_prime_get_sps matches p)",
                "fp_lsh/fp_rsh are documented on the digit vector (c = a * 2^bits without overflow, floor(a / 2^bits)): "
                "judged on raw digits, not as field operations",
-               "an error raised by fp_exp_slide for an exponent longer than the field is a rejection, not a wrong value",
-               "fp_smb_binar aborts under UBSan on every input in the gate build (known finding), so its values are "
-               "compared in the recoverable-report build asan256r; verdicts about memory/UB come from the gate builds"]
+               "an error raised by fp_exp_slide for an exponent longer than the field is a rejection, not a wrong value"]
 
 
 SWEEP = ("asan224", "asan384", "asan521", "asan377", "asan382", "asan446")
@@ -41,9 +39,7 @@ def parts(tier):
     return sweep + [dict(part="main", cfg="asan256", shards=6 if q else 8),
             dict(part="main", cfg="asan256k", shards=3 if q else 6),
             dict(part="main", cfg="asan255", shards=3 if q else 4),
-            dict(part="main", cfg="asan381", shards=2 if q else 4),
-            dict(part="smb-binar-directed", cfg="asan256", shards=1),
-            dict(part="smb-binar-values", cfg="asan256r", shards=1)]
+            dict(part="main", cfg="asan381", shards=2 if q else 4)]
 
 
 # ------------------------------------------------------------------------------------------------ fields
@@ -90,7 +86,7 @@ def is_cube(x, p):
 class Field(object):
     """one installed prime field: generators, classifiers and the per-function cases"""
 
-    def __init__(self, ctx, R, name, binar=False):
+    def __init__(self, ctx, R, name):
         self.ctx, self.R, self.name, self.rng = ctx, R, name, ctx.rng
         self.p = p = R.p
         self.digs = R.FP_DIGS
@@ -101,7 +97,6 @@ class Field(object):
         self.monty = self.mont != 1
         self.u = (-pow(p, -1, self.Rr)) % self.Rr          # full-width Montgomery constant
         self.bits = p.bit_length()
-        self.binar = binar
         self.a, self.b, self.c = R.fp_new(), R.fp_new(), R.fp_new()
         self.dv = R.mem(R.K["sizeof_dv_t"], 0x5A)
         self.bn = R.bn_new()
@@ -618,7 +613,7 @@ class Field(object):
         self.run("fp_inv_sim|%s" % cls, [[hx(r) for r in raws], alias], body)
 
     # ------------------------------------------------------------------------------- symbols, roots, predicates
-    SMB = ["fp_smb_basic", "fp_smb_divst", "fp_smb_jmpds", "fp_smb_lower"]
+    SMB = ["fp_smb_basic", "fp_smb_binar", "fp_smb_divst", "fp_smb_jmpds", "fp_smb_lower"]
 
     def smb(self, ra, fns=None):
         R, p, a = self.R, self.p, self.a
@@ -1030,20 +1025,7 @@ def install(R, f):
     R.fp_setup()
 
 
-def capture_stderr(ctx):
-    """UBSan (preloaded next to ASan) writes its report to stderr, not to log_path, and the harness truncates the
-    worker's .stderr file on restart; route fd 2 into a file the harness's report scanner does read (<tag>.san.*)."""
-    import os
-    try:
-        fd = os.open(os.path.join(ctx.outdir, ctx.tag + ".san.stderr"), os.O_WRONLY | os.O_CREAT | os.O_TRUNC, 0o644)
-        os.dup2(fd, 2)
-        os.close(fd)
-    except OSError:
-        pass
-
-
 def run(ctx, part):
-    capture_stderr(ctx)
     R = RT(ctx.cfg)
     R.strict_chain = True
     flds = enum_fields(R)
@@ -1053,7 +1035,7 @@ def run(ctx, part):
     ctx.note("dispatch_" + ctx.cfg, {m: R.target(m) for m in ("fp_add", "fp_mul", "fp_sqr", "fp_rdc", "fp_inv", "fp_smb", "fp_exp")})
     absent = set()
     if part == "main":
-        per = ctx.n(15000, 300000) // len(flds)
+        per = ctx.n(10000, 300000) // len(flds)
         for f in flds:
             install(R, f)
             F = Field(ctx, R, f[0])
@@ -1062,29 +1044,6 @@ def run(ctx, part):
             ctx.info.setdefault("sparse_form_reduction_tested", {})[f[0]] = bool(F.sps_ok)
             F.directed()
             F.random(per)
-            absent |= F.fn_absent
-    elif part == "smb-binar-directed":
-        # Known on the unchanged tree: fp_smb_binar shifts a 64-bit value by 64 (UBSan, fatal in the gate build) for
-        # practically every input.  One directed, sacrificial case; the value comparison runs in smb-binar-values.
-        install(R, flds[0])
-        F = Field(ctx, R, flds[0][0])
-        if F.has("fp_smb_binar"):
-            def body():
-                for x, e in ((4, 1), (F.qnr, -1), (0, 0)):
-                    R.fp_put(F.a, x)
-                    res = R.call("fp_smb_binar", F.a)
-                    F.ck(not res.caught and res.i == e, "value", {"x": hx(x), "got": res.i, "exp": e})
-            F.run("fp_smb_binar|directed", [hx(4), hx(F.qnr), "0x0"], body)
-        absent |= F.fn_absent
-    elif part == "smb-binar-values":
-        per = ctx.n(800, 10000)
-        for f in flds:
-            install(R, f)
-            F = Field(ctx, R, f[0])
-            for ra in F.special:
-                F.smb(ra, fns=["fp_smb_binar"])
-            for _ in range(per):
-                F.smb(F.elem(), fns=["fp_smb_binar"])
             absent |= F.fn_absent
     ctx.note("functions_exercised", sorted(R.fn_seen))
     ctx.note("functions_not_built", sorted(absent))
